@@ -463,6 +463,20 @@ class Interp(object):
         env.C.append(c)
         return c
 
+    def op_ball_all(self, R):
+        """normalisation: the sum of the squared norms of every leaf point created so far is at most R"""
+        from PEPit import Point
+        env = self.env
+        acc = None
+        for p in Point.list_of_leaf_points:
+            acc = p ** 2 if acc is None else acc + p ** 2
+        if acc is None:
+            env.skipped += 1
+            return None
+        c = acc <= R
+        env.features.add("ball_all")
+        return self._declare_constraint("init", c, None)
+
     def op_redeclare(self, where, ci):
         """declare an already existing constraint object once more (legal: sent as often as declared)."""
         env = self.env
